@@ -382,11 +382,13 @@ func (p *parser) expression(prec int) (Node, error) {
 					return nil, err
 				}
 
-				if right != nil {
-					node = &ProjectArrayNode{
-						Left:  node,
-						Right: right,
-					}
+				if right == nil {
+					right = CurrentNode{}
+				}
+
+				node = &ProjectArrayNode{
+					Left:  node,
+					Right: right,
 				}
 			}
 		case lexer.OrToken:
@@ -1789,11 +1791,13 @@ func (p *parser) primaryExpression() (Node, error) {
 					return nil, err
 				}
 
-				if right != nil {
-					node = &ProjectArrayNode{
-						Left:  node,
-						Right: right,
-					}
+				if right == nil {
+					right = CurrentNode{}
+				}
+
+				node = &ProjectArrayNode{
+					Left:  node,
+					Right: right,
 				}
 			}
 		} else {
